@@ -38,7 +38,8 @@ REQUIRED = ["objects", "layout_compared", "roundtrips", "table_dispatch",
             "structured_bodies_changed_and_reencoded",
             "objects_compared_before_and_after_encoding",
             "nx_action_bodies_compared", "nx_message_bodies_compared",
-            "nxm_numbers_compared", "decoded_as_last_message_in_buffer"]
+            "nxm_numbers_compared", "decoded_as_last_message_in_buffer",
+            "stats_of_unknown_types", "stats_replies_with_empty_lists"]
 TIMEOUT = {"quick": 900, "thorough": 7200}
 
 # wildcard bit constants (OpenFlow 1.0 spec)
@@ -249,6 +250,7 @@ def check_message (ctx, m, rng):
     if attr is not None and not explicit_len and len(b) < 60000 \
        and len(getattr(m, attr)) > 0:
       old_payload = getattr(m, attr)
+      if getattr(m, "_pvm_over", None): m._pvm_over.pop(attr, None)
       for new_payload in (old_payload + b"\x5a" * 5, old_payload[:len(old_payload) // 2]):
         setattr(m, attr, new_payload)
         ctx.rep.count("objects_reused_with_new_payload")
@@ -604,7 +606,10 @@ def do_case (case, rep):
       packed = check_message(ctx, m, rng)
       rep.count("stats_bodies")
       bodies = m.body if isinstance(m.body, list) else [m.body]
+      if kind.endswith(":unknown"): rep.count("stats_of_unknown_types")
+      if m.body == []: rep.count("stats_replies_with_empty_lists")
       for body in bodies[:2]:
+        if isinstance(body, bytes): continue
         check_struct(ctx, body, None, lambda b: ofgen.stats_body_fields(b, True),
                      rng, "stats")
     elif kind == "match":
